@@ -5,7 +5,7 @@ package rr
 // Contracts for the verifier in /verif (comment-only file; no declarations).
 
 //@ func runoffCoefficient(rainfall, coeff, runoff)
-//@   locals n, i
+//@   locals n, i@loop
 //@   canary [C10.canary-coefficient] implies(rainfall.len > 0, runoff.at(0) == rainfall.at(0))
 //@   kernel
 //@   states none
@@ -23,7 +23,7 @@ package rr
 // and per-timestep water balance  rain - runoff - pf*(dS + dGW) = ET >= 0 ----
 
 //@ func simhyd(rainfall, pet, initialStore, initialGW, initialTotalStore, baseflowCoefficient, imperviousThreshold, infiltrationCoefficient, infiltrationShape, interflowCoefficient, perviousFraction, risc, rechargeCoefficient, smsc, runoff, quickflow, baseflow, store) returns (rS, rGW, rTotal)
-//@   locals nDays, soilMoistureStore, gw, totalStore, idx, i, rainToday, petToday, perviousIncident, imperviousIncident, imperviousEt, imperviousRunoff, interceptionEt, throughfall, soilMoistureFraction, infiltrationCapacity, infiltration, infiltrationXsRunoff, interflowRunoff, infiltrationAfterInterflow, recharge, soilInput, baseflowRunoff, soilEt, eventRunoff, totalRunoff
+//@   locals nDays, soilMoistureStore, gw, totalStore, idx, i@loop, rainToday, petToday, perviousIncident, imperviousIncident, imperviousEt, imperviousRunoff, interceptionEt, throughfall, soilMoistureFraction, infiltrationCapacity, infiltration, infiltrationXsRunoff, interflowRunoff, infiltrationAfterInterflow, recharge, soilInput, baseflowRunoff, soilEt, eventRunoff, totalRunoff
 //@   kernel
 //@   states initialStore, initialGW, initialTotalStore
 //@   noalias
@@ -47,7 +47,7 @@ package rr
 // ---- Surm (C10) ----
 
 //@ func surm(rainfall, pet, initialStore, initialGW, initialTotalStore, bfac, coeff, dseep, fcFrac, fimp, rfac, smax, sq, thres, runoffTS, quickflowTS, baseflowTS, storeTS) returns (rS, rGW, rTotal)
-//@   locals nTimesteps, soilMoistureStore, gw, totalStore, idx, fperv, fieldCapacity, i, rainThisTS, petThisTS, quickflow, imperviousRunoff, maxInfiltration, infiltration, infiltrationExcess, saturationExcess, perviousQuickflow, et, recharge, seep, baseflow, runoff
+//@   locals nTimesteps, soilMoistureStore, gw, totalStore, idx, fperv, fieldCapacity, i@loop, rainThisTS, petThisTS, quickflow, imperviousRunoff, maxInfiltration, infiltration, infiltrationExcess, saturationExcess, perviousQuickflow, et, recharge, seep, baseflow, runoff
 //@   canary [C10.canary-surm] rS == initialStore
 //@   kernel
 //@   states initialStore, initialGW, initialTotalStore
@@ -86,7 +86,7 @@ package rr
 //@ # axiom [A-MATH.pow-monotone] forallr(a, forallr(b, forallr(p, implies(0 <= a && a <= b && p > 0, pow(a,p) <= pow(b,p)))))
 
 //@ func gr4j(rainfall, pet, s0, r0, n1, n2, q1State, q9State, x1, x2, x3, x4, runoff) returns (rS, rR, rN1, rN2, rQ1, rQ9)
-//@   locals nDays, S, Ps, Es, Pr, R, SH1, i, i, UH1, i, SH2, UH2, i, Perc, idx, day, netRainfall, netET, Q1, Q9, Tp, Qd, Qr, ech, todaysRainfall, todaysPET, ws, tws, i, i, i, i, qtot
+//@   locals nDays, S, Ps, Es, Pr, R, SH1, i, i@loop, UH1, i@loop, SH2, UH2, i@loop, Perc, idx, day@loop, netRainfall, netET, Q1, Q9, Tp, Qd, Qr, ech, todaysRainfall, todaysPET, ws, tws, i@loop, i@loop, i@loop, i@loop, qtot
 //@   loopsigs 486f37ef bba0d4e4 f399b9e9 c62663b1 2968b90a 102504dd f0a6638f 82440357 63b34a5a 4f6b73af
 //@   canary [C15.canary-gr4j] rS == s0
 //@   kernel
@@ -145,7 +145,7 @@ package rr
 // contents are carried twice, as states and scaled by (1+side); the scaled
 // copies are tied to the states by a proved invariant.
 //@ func sacramento
-//@   locals nDays, qq, dro, saved, alzfsm, alzfpm, pbase, alzfsc, alzfpc, idx, timestep, evapt, pliq, e1, e2, a, b, e3, e5, del, roimp, pav, adj, itime, duz, flobf, flosf, floin, hpl, ii, ninc, dinc, pinc, dlzp, dlzs, inc, ratio, addro, bf, lzair, perc, del, perctw, percfw, ratlp, ratls, percs, flwsf, j, k, flwbf, baseflowFraction, qf, e4, bf
+//@   locals nDays, qq, dro, saved, alzfsm, alzfpm, pbase, alzfsc, alzfpc, idx, timestep@loop, evapt, pliq, e1, e2, a, b, e3, e5, del, roimp, pav, adj, itime, duz, flobf, flosf, floin, hpl, ii@loop, ninc, dinc, pinc, dlzp, dlzs, inc@loop, ratio, addro, bf, lzair, perc, del, perctw, percfw, ratlp, ratls, percs, flwsf, j@loop, k@loop, flwbf, baseflowFraction, qf, e4, bf
 //@   loopsigs 56a540f0 20f03c56 c914fa1e 7dd3dc15 f21f896b
 //@   noalias
 //@   panics allowed
@@ -175,13 +175,13 @@ package rr
 //@ induct [C10.lemma-asum-shift-add] (a []real, b []real, u []real, c real) m : implies(forall(k, 0, m, b[k] == a[k+1] + c*u[k+1]), asum(b, m) == asum(a, m+1) - a[0] + c*(asum(u, m+1) - u[0]))
 
 //@ func sumSlice(s) returns (sum)
-//@   locals v
+//@   locals v@loop
 //@   assigns nothing
 //@   ensures [C10.sac-sum] sum == asum(s, len(s))
 //@   loop 0 invariant -1 <= rangeindex && rangeindex < len(s) && sum == asum(s, rangeindex + 1)
 
 //@ func makeUnitHydrograph(uh1, uh2, uh3, uh4, uh5) returns (r)
-//@   locals base, sum, i
+//@   locals base, sum, i@loop
 //@   requires uh1 + uh2 + uh3 + uh4 + uh5 > 0
 //@   assigns nothing
 //@   ensures [C10.sac-uh-normalised] len(r) == 5 && r[0]*(uh1+uh2+uh3+uh4+uh5) == uh1 && r[1]*(uh1+uh2+uh3+uh4+uh5) == uh2 && r[2]*(uh1+uh2+uh3+uh4+uh5) == uh3 && r[3]*(uh1+uh2+uh3+uh4+uh5) == uh4 && r[4]*(uh1+uh2+uh3+uh4+uh5) == uh5
@@ -226,7 +226,7 @@ package rr
 //@   ensures [C04.param-view] m.X4 != nil && m.X4.rank == 1 && m.X4.dim(0) == parameters.dim(1) && m.X4.root == parameters.root && forall(c, 0, parameters.dim(1), m.X4.idx(c) == parameters.idx(3, c))
 
 //@ func (*GR4J).Run(m, inputs, states, outputs)
-//@   locals inputDims, numCells, numStates, numInputSequences, inputLen, cellInputsShape, inputNewShape, outputStepSlice, outputSizeSlice, statesSizeSlice, inputsSizeSlice, doneChan, j, outputPosSlice, statesPosSlice, inputsPosSlice, x1, x2, x3, x4, initialStates, s, r, n1, n2, q1, q9, cellInputs, rainfall, pet, runoff, j
+//@   locals inputDims, numCells, numStates, numInputSequences, inputLen, cellInputsShape, inputNewShape, outputStepSlice, outputSizeSlice, statesSizeSlice, inputsSizeSlice, doneChan, j@loop, outputPosSlice, statesPosSlice, inputsPosSlice, x1, x2, x3, x4, initialStates, s, r, n1, n2, q1, q9, cellInputs, rainfall, pet, runoff, j@loop
 //@   loopsigs 6e14aa20 e11cefee
 //@   ndmodel locations
 //@   requires inputs.rank == 3 && states.rank == 2 && outputs.rank == 3
